@@ -61,7 +61,7 @@ def reg(spec):
 reg(Spec('C17', ['c17:C17'],
          quick=[('CORRUPT', 1500), ('ADV', 1500), ('DUPLEX', 500), ('HDR', 500)],
          thorough=[('CORRUPT', 40000), ('ADV', 40000), ('DUPLEX', 10000), ('HDR', 10000)],
-         overrides={'ADV': {'adv_plausible': 0.4}},
+         overrides={'ADV': {'adv_plausible': 0.4, 'adv_flood': 0.1}},
          rule='one evaluation = one simulated two-endpoint run (seeded workload + schedule + faults); '
               'non-trivial = at least one receive_data call on a direction that a byte/frame fault or the adversary '
               'had touched; distinct = distinct abstract traces (hash of per-step op/frame-type/outcome/event-type sequence)'))
@@ -84,7 +84,7 @@ reg(Spec('C04', ['c04:C04'],
 reg(Spec('C05', ['c05:C05'],
          quick=[('FLOW', 2500), ('RACE', 1000)],
          thorough=[('FLOW', 50000), ('RACE', 20000)],
-         overrides={'*': {'no_manual_winc': True, 'no_over_ack': True}},
+         overrides={'*': {'no_manual_winc': True, 'no_over_ack': True, 'ops_boost': {'race': 3}}},
          rule=R_RUN + 'non-trivial = an advertised window was driven to zero at least once' + R_DISTINCT,
          assumptions=['applications acknowledge exactly the bytes they received (no manual window increments, no over-acknowledgement): the premise of the property']))
 reg(Spec('C07', ['c07:C07'],
@@ -124,7 +124,8 @@ reg(Spec('C01', ['c01:C01'],
 reg(Spec('C13', ['c13:C13'],
          quick=[('HDR', 2500), ('DUPLEX', 1000)],
          thorough=[('HDR', 60000), ('DUPLEX', 20000), ('RACE', 10000)],
-         overrides={'*': {'matrix_outbound': True, 'small_closed': 0.0, 'small_backlog': False, 'misuse': 0.3}},
+         overrides={'*': {'matrix_outbound': True, 'small_closed': 0.0, 'small_backlog': False, 'misuse': 0.3,
+                          'misuse_focus': [0, 4, 4, 14], 'push': 0.2, 'ops_boost': {'push': 3}}},
          rule=R_RUN + 'non-trivial = a header-carrying call raised and a later one on the same endpoint succeeded' + R_DISTINCT))
 reg(Spec('C14', ['c14:C14'],
          quick=[('HDR', 3000), ('DUPLEX', 500)],
@@ -143,6 +144,7 @@ reg(Spec('C06', ['c06:C06'],
 reg(Spec('C08', ['c08:C08'],
          quick=[('MISUSE', 2500), ('DUPLEX', 800), ('UPGRADE', 500)],
          thorough=[('MISUSE', 60000), ('DUPLEX', 20000), ('UPGRADE', 10000)],
+         overrides={'MISUSE': {'misuse_focus': [0, 4, 4, 14, 1, 2], 'push': 0.2, 'ops_boost': {'push': 3}}},
          rule=R_RUN + 'non-trivial = at least one ordering call (headers/data/end/push/prioritize/alt-svc) was refused' + R_DISTINCT))
 reg(Spec('C09', ['c09:C09'],
          quick=[('DUPLEX', 1200), ('RACE', 800), ('ADV', 2000), ('MISUSE', 600)],
@@ -181,20 +183,22 @@ reg(Spec('C11', ['c11:C11'],
 reg(Spec('C12', ['c12:C12'],
          quick=[('ADV', 2500), ('CORRUPT', 1500), ('MISUSE', 800), ('FLOW', 600)],
          thorough=[('ADV', 60000), ('CORRUPT', 40000), ('MISUSE', 20000), ('FLOW', 20000), ('UPGRADE', 5000)],
-         overrides={'*': {'ops_boost': {'settings': 3}}},
+         overrides={'*': {'ops_boost': {'settings': 3, 'push': 2}, 'adv_overflow': 0.15, 'push': 0.15}},
          rule=R_RUN + 'non-trivial = a boundary value (0, 1, 2, 2^14-1, 2^14, 2^24-1, 2^24, 2^31-1, 2^31, 2^32-1), an out-of-range value or an unknown identifier was used, locally or on the wire' + R_DISTINCT,
          assumptions=['setting identifiers sent through update_settings stay below 256 (hyperframe 6.1 serialises id & 0xFF); received identifiers cover 0..65535']))
 
 reg(Spec('C15', ['c15:C15'],
          quick=[('HDR', 2500), ('ADV', 2500)],
          thorough=[('HDR', 60000), ('ADV', 60000), ('CORRUPT', 10000)],
-         overrides={'HDR': {'config_matrix': 0.8, 'sloppy_sender': 0.6, 'misuse': 0.25}, 'ADV': {'config_matrix': 0.5}},
+         overrides={'HDR': {'config_matrix': 0.8, 'sloppy_sender': 0.6, 'misuse': 0.25},
+                    'ADV': {'config_matrix': 0.5, 'adv_hostauth': 0.2}},
          rule=R_RUN + 'non-trivial = a header block violating at least one section 8.1.2 rule was delivered to an endpoint in a position where the stream state permits a block' + R_DISTINCT))
 
 reg(Spec('C16', ['c16:C16'],
          quick=[('HDR', 2500), ('DUPLEX', 1500), ('ADV', 1500)],
          thorough=[('HDR', 60000), ('DUPLEX', 40000), ('ADV', 40000)],
-         overrides={'*': {'cl': 0.5, 'cl_lie': 0.3, 'matrix_outbound': False, 'small_backlog': False, 'head_bias': 0.3}},
+         overrides={'*': {'cl': 0.5, 'cl_lie': 0.3, 'matrix_outbound': False, 'small_backlog': False, 'head_bias': 0.3,
+                          'ops_boost': {'trailers': 4, 'respond': 2, 'info': 3}}},
          rule=R_RUN + 'non-trivial = a message with END_STREAM on HEADERS or on trailers was delivered (placements other than the last DATA)' + R_DISTINCT))
 
 reg(Spec('C20', ['c20:C20', 'c20:C20Credit'],
@@ -234,7 +238,7 @@ reg(Spec('C25', ['c25:C25', 'c25:C25E2E', 'c25:C25Flow'],
 reg(Spec('C27', ['c27:C27'],
          quick=[('LONG', 96), ('ADV', 1500), ('HDR', 500)],
          thorough=[('LONG', 1600), ('ADV', 40000), ('HDR', 10000)],
-         overrides={'LONG': {}, 'ADV': {'big_headers': 0.3}, 'HDR': {'big_headers': 0.4}},
+         overrides={'LONG': {}, 'ADV': {'big_headers': 0.3, 'adv_flood': 0.1}, 'HDR': {'big_headers': 0.4}},
          budget=(600, 5400),
          rule=R_RUN + 'LONG runs feed 4k-20k (quick) adversary frames that open, close, reset and reference streams to one real endpoint; '
               'non-trivial = an endpoint received at least 2000 frames; retained-table sizes are read after every step' + R_DISTINCT,
